@@ -232,6 +232,29 @@ pub fn decrypt_data_with_aad(
         })
 }
 
+/// Verification hook: the private `build_hkdf_context`
+#[cfg(feature = "verif-hooks")]
+pub fn verif_build_hkdf_context(
+    scheme_label: &[u8],
+    file_hash: &[u8; 32],
+    mime_type: &str,
+    filename: &str,
+    suffix: &[u8],
+) -> Vec<u8> {
+    build_hkdf_context(scheme_label, file_hash, mime_type, filename, suffix)
+}
+
+/// Verification hook: the private `build_aad`
+#[cfg(feature = "verif-hooks")]
+pub fn verif_build_aad(
+    scheme_label: &[u8],
+    file_hash: &[u8; 32],
+    mime_type: &str,
+    filename: &str,
+) -> Vec<u8> {
+    build_aad(scheme_label, file_hash, mime_type, filename)
+}
+
 #[cfg(test)]
 mod tests {
     use std::collections::hash_map::DefaultHasher;
